@@ -17,7 +17,7 @@ from allmydata.interfaces import ConflictingWriteError, DataTooLargeError, BadWr
 from allmydata.util import fileutil
 
 SHNUMS = ["0", "1", "2"]
-RS = {"r%d" % i: bytes([0x10 + i]) * 32 for i in range(3)}
+RS = {"r%d" % i: bytes([0x10 + i]) * 32 for i in range(7)}
 CS = {"c%d" % i: bytes([0x20 + i]) * 32 for i in range(3)}
 WE = {"wA": b"A" * 32, "wB": b"B" * 32}
 SI = {"i0": b"\x01" * 16, "i1": b"\x5a" * 16, "m0": b"\x77" * 16, "m1": b"\xe3" * 16}
@@ -43,13 +43,18 @@ class Canary:
 
 
 class Disk:
-    """What fileutil.get_available_space reports; set by the scenario."""
-    def __init__(self):
-        self.raw_free = 10 ** 6
+    """Simulated disk behind fileutil.get_available_space: capacity is set by the scenario, used space is the
+    number of share data bytes actually written (sparse files: holes cost nothing, headers/leases ignored)."""
+    def __init__(self, scenario):
+        self.capacity = 10 ** 6
+        self.sc = scenario
         self.last = None
 
+    def used(self):
+        return self.sc.bytes_on_disk()
+
     def __call__(self, whichdir, reserved):
-        self.last = max(0, self.raw_free - reserved)
+        self.last = max(0, self.capacity - self.used() - reserved)
         return self.last
 
 
@@ -66,18 +71,19 @@ class Scenario:
         self.rng = rng
         self.profile = profile
         self.dir = tempfile.mkdtemp(prefix="srv", dir=workdir)
-        self.disk = Disk()
+        self.disk = Disk(self)
         fileutil.get_available_space = self.disk
+        self.writers = {}
+        self.wstate = {}      # wid -> {"written": set(), "final": bool}
         self.reserved = rng.choice([0, 0, 7, 1000])
         self.readonly = (profile == "imm" and rng.random() < 0.08)
         self.limited = (profile == "imm" and rng.random() < 0.6)
-        self.disk.raw_free = self.reserved + (rng.randint(0, 14) if self.limited else 10 ** 6)
+        self.disk.capacity = self.reserved + (rng.randint(0, 14) if self.limited else 10 ** 6)
         self.t0 = vr.seconds()
         self.ss = StorageServer(self.dir, b"\x00" * 20, reserved_space=self.reserved,
                                 readonly_storage=self.readonly, clock=vr)
         self.fss = FoolscapStorageServer(self.ss)
         self.canaries = {"k0": Canary(), "k1": Canary()}
-        self.writers = {}     # wid -> FoolscapBucketWriter
         self.nw = 0
         self.events = []
         self.nevents = nevents
@@ -143,6 +149,26 @@ class Scenario:
     def inprogress(self):
         return self.ss.allocated_size()
 
+    def bytes_on_disk(self):
+        """share bytes held by uploads in progress and by completed shares (disk simulator)"""
+        n = 0
+        for wid, (fw, size) in self.writers.items():
+            bw = fw._bucket_writer
+            st = self.wstate[wid]
+            if not bw.closed:
+                n += len(st["written"])
+            else:
+                if not st["settled"]:
+                    st["settled"] = True
+                    st["final"] = os.path.exists(bw.finalhome) and not any(
+                        o["final"] and o["path"] == bw.finalhome for w2, o in self.wstate.items() if w2 != wid)
+                if st["final"]:
+                    n += len(st["written"])
+        return n
+
+    def avail(self):
+        return 0 if self.readonly else max(0, self.disk.capacity - self.bytes_on_disk() - self.reserved)
+
     def log(self, ev, si=None, **kw):
         e = {"ev": ev}
         if si is not None:
@@ -156,7 +182,7 @@ class Scenario:
     def would_need_lease_space(self, si, rs, size):
         """adding (not renewing) a lease on an existing share when the disk is too full raises
         NoSpace after an iteration-order dependent prefix of renewals: not generated."""
-        avail = 0 if self.readonly else max(0, self.disk.raw_free - self.reserved)
+        avail = self.avail()
         if avail >= size:
             return False
         o = self.obs(si)
@@ -175,6 +201,7 @@ class Scenario:
         shnums = sorted(r.sample(SHNUMS, r.randint(0, 3)))
         size = r.randint(1, 5)
         conn = r.choice(list(self.canaries))
+        free_before = self.avail()
         already, writers = self.fss.remote_allocate_buckets(SI[si], RS[rs], CS[cs], set(int(s) for s in shnums), size,
                                                             self.canaries[conn])
         alloc = {}
@@ -182,9 +209,13 @@ class Scenario:
             self.nw += 1
             wid = "w%d" % self.nw
             self.writers[wid] = (w, size)
+            self.wstate[wid] = {"written": set(), "final": False, "settled": False, "path": w._bucket_writer.finalhome, "si": si}
             alloc[str(sh)] = wid
-        self.log("Allocate", si, rs=rs, cs=cs, shnums=shnums, size=size, conn=conn, free=(0 if self.readonly else max(0, self.disk.raw_free - self.reserved)),
+        self.log("Allocate", si, rs=rs, cs=cs, shnums=shnums, size=size, conn=conn, free=free_before,
                  inprog=self.inprogress(), res={"already": sorted(str(s) for s in already), "allocated": alloc})
+
+    def open_wids(self):
+        return {w for w, (fw, _) in self.writers.items() if not fw._bucket_writer.closed}
 
     def pick_writer(self):
         if not self.writers:
@@ -207,13 +238,14 @@ class Scenario:
         try:
             fw.remote_write(off, l2b(data))
             res = "ok"
+            self.wstate[wid]["written"].update(range(off, off + len(data)))
         except ConflictingWriteError:
             res = "conflict"
         except DataTooLargeError:
             res = "toolarge"
         except (AssertionError, terror.AlreadyCancelled, terror.AlreadyCalled):
             res = "closed"
-        self.log("Write", wid=wid, off=off, data=data, res=res, inprog=self.inprogress())
+        self.log("Write", self.wstate[wid]["si"], wid=wid, off=off, data=data, res=res, inprog=self.inprogress())
 
     def op_close(self):
         wid = self.pick_writer()
@@ -225,7 +257,7 @@ class Scenario:
             res = "ok"
         except (AssertionError, terror.AlreadyCancelled, terror.AlreadyCalled):
             res = "closed"
-        self.log("Close", wid=wid, res=res, inprog=self.inprogress())
+        self.log("Close", self.wstate[wid]["si"], wid=wid, res=res, inprog=self.inprogress())
 
     def op_abort(self):
         wid = self.pick_writer()
@@ -233,17 +265,23 @@ class Scenario:
             return
         fw, _ = self.writers[wid]
         fw.remote_abort()
-        self.log("Abort", wid=wid, res="ok", inprog=self.inprogress())
+        self.log("Abort", self.wstate[wid]["si"], wid=wid, res="ok", inprog=self.inprogress())
 
     def op_advance(self):
         dt = self.rng.choice([1, 60, 600, 900, 1200, 1800, 1801])
+        if self.profile == "lease" and self.rng.random() < 0.3:
+            dt = -self.rng.choice([1, 5000, 100000])      # the server's clock steps back (NTP): expiry must not follow
+        before = self.open_wids()
         vr.advance(dt)
-        self.log("Advance", dt=dt, inprog=self.inprogress())
+        self.log("Advance", dt=dt, inprog=self.inprogress(), closed=sorted(before - self.open_wids()),
+                 obsall={si: self.obs(si) for si in self.sisI})
 
     def op_disconnect(self):
         conn = self.rng.choice(list(self.canaries))
+        before = self.open_wids()
         self.canaries[conn].fire()
-        self.log("Disconnect", conn=conn, inprog=self.inprogress())
+        self.log("Disconnect", conn=conn, inprog=self.inprogress(), closed=sorted(before - self.open_wids()),
+                 obsall={si: self.obs(si) for si in self.sisI})
 
     def op_getbuckets(self):
         si = self.rng.choice(self.sisI)
@@ -265,8 +303,8 @@ class Scenario:
         r = self.rng
         if not self.limited and r.random() < 0.7:
             return
-        self.disk.raw_free = self.reserved + r.randint(0, 14)
-        self.log("SetFree", free=max(0, self.disk.raw_free - self.reserved))
+        self.disk.capacity = self.reserved + r.randint(0, 14)
+        self.log("SetFree", capacity=self.disk.capacity)
 
     def op_addlease(self):
         r = self.rng
@@ -380,11 +418,21 @@ class Scenario:
                      (self.op_getbuckets, 2)]
         ops = [o for o, w in table for _ in range(w)]
         guard = 0
+        fam = {"op_allocate": "C22_C28", "op_write": "C22", "op_close": "C22_C28", "op_abort": "C22_C28", "op_advance": "C22_C28",
+               "op_disconnect": "C22_C28", "op_getbuckets": "C22", "op_read": "C22", "op_addlease": "C25", "op_renew": "C25",
+               "op_rtw": "C23_C24_C25", "op_readv": "C23", "<lambda>": "C23_C24_C25"}
         while len(self.events) < self.nevents and guard < self.nevents * 20:
             guard += 1
-            self.rng.choice(ops)()
+            op = self.rng.choice(ops)
+            try:
+                op()
+            except Exception as e:      # the code under test raised something the Spec has no answer for
+                import traceback
+                self.events.append({"ev": "Crash", "op": getattr(op, "__name__", "op"), "family": fam.get(getattr(op, "__name__", ""), "C22_C23_C24_C25_C28"),
+                                    "exc": type(e).__name__, "tb": traceback.format_exc()[-600:]})
+                break
         tr = {"consts": {"sisI": self.sisI, "sisM": self.sisM, "shnums": SHNUMS, "readonly": self.readonly,
-                         "free0": 0,
+                         "capacity0": 0,
                          "profile": p},
               "events": self.events}
         return tr
@@ -407,10 +455,10 @@ def main():
     try:
         for i in range(a.n):
             sc = Scenario(rng, work, a.profile, a.events)
-            free0 = max(0, sc.disk.raw_free - sc.reserved)
+            cap0 = sc.disk.capacity
             try:
                 tr = sc.run()
-                tr["consts"]["free0"] = free0
+                tr["consts"]["capacity0"] = cap0
                 tr["consts"]["reserved"] = sc.reserved
                 traces.append(tr)
             finally:
